@@ -114,3 +114,13 @@ Theorem C12_medium_index_fits : forall l1 maxKB start stop,
   6 * (a_maxMedium (initAlgorithms l1 maxKB start stop) / 30) + 6 <= MAX_MULTIPLEINDEX.
 Proof. exact medium_index_fits. Qed.
 Print Assumptions C12_medium_index_fits.
+
+(** in the three-algorithm loop no store of a sieving prime ever fails (= writes outside buckets_ of EratMedium or EratBig),
+    for every state reachable in the loop, every sieving prime added no later than in the segment containing its square *)
+From PS Require Import Model.Erat3M Proofs.Erat3LoopP.
+Theorem C12_erat3_stores_in_bounds : forall stop maxSmall maxMedium log2 pmin, stop <= MAX64 -> 31 <= pmin ->
+  forall low s w p, low mod 30 = 0 -> low + 6 <= MAX64 -> st_ok log2 low s w -> sp_ok3 stop pmin p ->
+  (maxMedium < p -> p * p <= low + 30 * size log2 + 6) ->
+  exists s1, add_prime3 stop low maxSmall maxMedium log2 s p = Some s1.
+Proof. exact add_prime3_total. Qed.
+Print Assumptions C12_erat3_stores_in_bounds.
